@@ -32,6 +32,9 @@ package rep
 //@   loop 2 invariant 4*hops <= len(body0)
 //@   loop 2 invariant arrof(m.Header) != arrof(body0)
 //@   loop 2 invariant forall(j, 0, hops, body0[4*j] < 128)
+//@   loop 2 invariant len(m.Header) == len(hdr0) + 4*hops
+//@   loop 2 invariant forall(j, 0, 4*hops, m.Header[len(hdr0)+j] == body0[j])
+//@   at select#1 assert selidx == 0 ==> len(m.Header) == len(hdr0) + 4*hops && forall(j, 0, 4*hops, m.Header[len(hdr0)+j] == body0[j])
 //@   at select#1 assert selidx == 0 ==> hops >= 1 && hops <= s.ttl && 4*hops <= len(body0) && body0[4*(hops-1)] >= 128 && forall(j, 0, hops-1, body0[4*j] < 128)
 //@   at call:Free#1 assert forall(j, 0, hops, body0[4*j] < 128) && hops >= s.ttl
 //@   at call:Free#2 assert forall(j, 0, hops-1, body0[4*j] < 128) && len(body0) < 4*hops
